@@ -50,7 +50,7 @@ def check_limits(self: Obj("VM"), count: IntRange(0, 10 ** 15), tl: Num, ml: Int
     t0 = time.monotonic()
     o = outcome(REAL, self)
     t1 = time.monotonic()
-    polled = use_tl and tl != 0 and (count + 1) % POLL == 0
+    polled = use_tl and (count + 1) % POLL == 0
     usage = SLOT * len(stack) + FRAME * len(frames)
     over = use_ml and ml != 0 and usage > ml
     check("counts-one", self.instruction_count == count + 1)
@@ -190,7 +190,7 @@ def c01_one_deadline(tier="quick", seed=0):
                         sites.append((mod, f.name, c.lineno))
     allowed = {("microjs.context", "eval"), ("microjs.context", "_nested_vm")}
     bad = [s for s in sites if (s[0], s[1]) not in allowed]
-    out.append(ob("C01.one-deadline.construction-sites", not bad and len(sites) >= 2, "K3",
+    out.append(ob("C01.one-deadline.construction-sites", not bad and len(sites) >= 1, "K3",
                   f"VM(...) constructed in {sorted({(s[0].split('.')[-1], s[1]) for s in sites})}; not allowed: {bad}",
                   witness="nested code started from " + str(bad)))
     try:
@@ -270,8 +270,8 @@ def c01_current_vm(tier="quick", seed=0):
         detail = ""
         if ok:
             rv = restores[0].value
-            if f.name == "eval":
-                ok = isinstance(rv, ast.Constant) and rv.value is None
+            if f.name == "eval" and isinstance(rv, ast.Constant):
+                ok = rv.value is None
                 detail = "entry point: cleared in finally"
             else:
                 # restored value must be a name assigned from <x>._current_vm before the set
@@ -308,10 +308,22 @@ def c01_regex_polls(tier="quick", seed=0):
             counter = [_S_.unparse(x.target) for x in head if isinstance(x, ast.AugAssign) and isinstance(x.op, ast.Add)
                        and isinstance(x.value, ast.Constant) and x.value.value == 1]
             counts = bool(counter)
-            polls = counts and f"{counter[0]} % self.poll_interval == 0" in txt and "self.poll_callback()" in txt and "raise RegexTimeoutError" in txt
+            # either the step counter modulo the interval, or a counter of its own that runs on across attempts and is
+            # cleared only where the poll happens
+            since = [c for c in counter if f"if {c} >= self.poll_interval:\n    {c} = 0" in txt]
+            polls = counts and (f"{counter[0]} % self.poll_interval == 0" in txt or bool(since)) and "self.poll_callback()" in txt and "raise RegexTimeoutError" in txt
+            if since:
+                fld = since[0].split(".")[-1]
+                resets = [(g.name, n.lineno) for g in ast.walk(tree) if isinstance(g, ast.FunctionDef) and g.name != "__init__" for n in ast.walk(g)
+                          if isinstance(n, ast.Assign) and any(isinstance(t, ast.Attribute) and t.attr == fld for t in n.targets)]
+                out.append(ob(f"C01.regex-polls.{f.name}.poll-counter-runs-on", len(resets) == 1, "K3",
+                              f"{since[0]} is cleared only where the poll happens (assignments outside __init__: {resets}): a search made of many short attempts polls as often as one long attempt",
+                              witness="'a'.repeat(100000) searched with /a{20}b/ under time_limit=0.3"))
             out.append(ob(f"C01.regex-polls.{f.name}", counts and polls, "K3",
                           f"{f.name}: loop at line {w.lineno} {'counts steps and polls the deadline first' if counts and polls else 'does not start by counting a step and polling the deadline'}",
                           witness="/(?<=(?:a|a)*c)x/.test('aaaaaaaaaaaaaaaaaaaaaaaaaaaaax') under a time limit"))
+    from contracts.C10_regex_total import step_counter_discipline
+    out.append(step_counter_discipline("C01"))
     # sub-matchers of look-around assertions either are that loop (recursive call) or have their own counted loop
     subs = [f.name for f in ast.walk(tree) if isinstance(f, ast.FunctionDef) and ("lookahead" in f.name or "lookbehind" in f.name)]
     out.append(ob("C01.regex-polls.inventory", loops >= 1 and (loops >= 1 + len(subs)), "K3",
@@ -364,6 +376,18 @@ REGEX = {
     "regex-after-Function": "new Function('return 1')(); new RegExp('(a*)*b').test('aaaaaaaaaaaaaaaaaaaaaaaaaaaaaaaa')",
     "regex-in-callback-after-eval": "[1].map(function(){ eval('1'); return new RegExp('(a*)*b').test('aaaaaaaaaaaaaaaaaaaaaaaaaaaaaaaa') })",
     "regex-sticky": "/(a*)*b/y.test('aaaaaaaaaaaaaaaaaaaaaaaaaaaaaaaa')",
+    "regex-lookahead-in-loop": "/((?=a)a+)+b/.test('aaaaaaaaaaaaaaaaaaaaaaaaaaaaaac')",
+    "regex-lookbehind-in-loop": "/(a+(?<=a))+b/.test('aaaaaaaaaaaaaaaaaaaaaaaaaaaaaac')",
+    # searches made of very many SHORT attempts (one per start position / per match): no single attempt reaches the polling interval
+    "regex-short-attempts-test": "var s = 'a'.repeat(3000000); /a{20}b/.test(s)",
+    "regex-short-attempts-search": "var s = 'ab'.repeat(2000000); s.search(/c/)",
+    "regex-short-attempts-split": "var s = 'a'.repeat(3000000); s.split(/a{20}b/).length",
+    "regex-short-attempts-replace": "'a'.repeat(3000000).replace(/a/g, 'b').length",
+    "regex-short-attempts-replaceAll": "'a'.repeat(3000000).replaceAll(/a/g, 'b').length",
+    "regex-short-attempts-match": "'a'.repeat(3000000).match(/a/g).length",
+    "regex-short-attempts-split-each": "'a'.repeat(3000000).split(/a/).length",
+    "regex-short-attempts-lookahead": "'ab'.repeat(2000000).replace(/(?=b)c/g, '').length",
+    "regex-short-attempts-sticky-global": "'a'.repeat(3000000).replace(/a/gy, 'b').length",
 }
 
 
@@ -467,6 +491,76 @@ def c01_bounded(tier="quick", seed=0):
                       "ok" if not fails else f"{fails[0][0]}: {fails[0][2]} after {fails[0][3]}s",
                       witness=(fails[0][1] if fails else None), confirmed=True if fails else None,
                       domain=sum(1 for n, _ in cases if n.split(".")[0] == g), key=f"C01.bounded.placements.{g}"))
+    return out
+
+
+def _reentrant_case(name):
+    """evaluations that call back into the host, which calls Context.eval / Context.get / Context.set of the same context again"""
+    import signal
+    import time as _t
+    from microjs import Context
+    from microjs.errors import TimeLimitError, JSError
+
+    def boom(*a):
+        raise SystemExit(9)
+    signal.signal(signal.SIGALRM, boom)
+    signal.alarm(20)
+    T = 0.3
+    ctx = Context(time_limit=0 if name == "zero-limit" else T)
+    spin = "function spin(ms){ var t = Date.now(); while (Date.now() - t < ms) {} } "
+    progs = {
+        # after the host's inner eval has returned, nested code of the outer evaluation still runs on the outer deadline
+        "inner-eval-then-nested": (lambda: ctx.eval("1"), spin + "function level(n){ if (n == 0) return 'done'; spin(150); py(); return eval('level(' + (n - 1) + ')') } level(40)"),
+        "inner-eval-then-Function": (lambda: ctx.eval("1"), spin + "function level(n){ if (n == 0) return 'done'; spin(150); py(); return new Function('return level(' + (n - 1) + ')')() } level(40)"),
+        "inner-eval-then-regex": (lambda: ctx.eval("1"), "py(); new RegExp('(a*)*b').test('aaaaaaaaaaaaaaaaaaaaaaaaaaaaaaaaaaaaaaaaaaaa')"),
+        "inner-eval-then-getter-values": (lambda: ctx.eval("1"), spin + "function mk(n){ var o = {}; Object.defineProperty(o, 'p', {get: function(){ spin(150); py(); return n ? Object.values(mk(n - 1)) : 0 }, enumerable: true}); return o } Object.values(mk(40))"),
+        "inner-get-set-then-nested": (lambda: (ctx.set("k", [1, 2]), ctx.get("k"))[1], spin + "function level(n){ if (n == 0) return 'done'; spin(150); py(); return eval('level(' + (n - 1) + ')') } level(40)"),
+        # the inner evaluation is part of the outer one: it cannot outlive the outer deadline by much, nor be swallowed
+        "inner-eval-loops": (lambda: ctx.eval("while (true) {}"), "try { py() } catch (e) { } 'swallowed'"),
+        "inner-eval-loops-in-callback": (lambda: ctx.eval("while (true) {}"), "[1, 2, 3].map(function () { try { py() } catch (e) { } return 1 }).join()"),
+        "inner-eval-many-short": (lambda: ctx.eval("1 + 1"), "while (true) { py() }"),
+        "inner-eval-recursion": (lambda: ctx.eval("py()"), "py()"),
+        "zero-limit": (lambda: 0, "while (true) {}"),
+    }
+    host, src = progs[name]
+    ctx.set("py", host)
+    t0 = _t.time()
+    try:
+        try:
+            r = ctx.eval(src)
+            kind = "returned " + repr(r)[:40]
+        except TimeLimitError:
+            kind = "TimeLimitError"
+        except JSError as e:
+            kind = "JSError: " + str(e)[:70]
+        except SystemExit:
+            kind = "HANG (killed after 20 s)"
+        except BaseException as e:  # noqa
+            kind = "HOST " + type(e).__name__ + ": " + str(e)[:60]
+    finally:
+        signal.alarm(0)
+    return name, src, kind, _t.time() - t0
+
+
+REENTRANT = ["inner-eval-then-nested", "inner-eval-then-Function", "inner-eval-then-regex", "inner-eval-then-getter-values", "inner-get-set-then-nested",
+             "inner-eval-loops", "inner-eval-loops-in-callback", "inner-eval-many-short", "inner-eval-recursion", "zero-limit"]
+
+
+@groups.group(id="C01.bounded.reentrant", prop="C01", kind="B", functions=["microjs.context:Context.eval", "microjs.context:Context._nested_vm", "microjs.vm:VM._check_limits"])
+def c01_reentrant(tier="quick", seed=0):
+    """host functions that use the context again while an evaluation is running (Context.eval/get/set from inside a
+    callable the script calls): the outer evaluation still ends by its own deadline; and time_limit=0 is a limit"""
+    import multiprocessing as mp
+    with mp.get_context("fork").Pool(5) as pool:
+        res = pool.map(_reentrant_case, REENTRANT)
+    out = []
+    for name, src, kind, dt in res:
+        if name == "inner-eval-recursion":
+            ok = not kind.startswith("HOST") and not kind.startswith("HANG") and not kind.startswith("returned")   # a JSError (depth guard or deadline), never a host RecursionError
+        else:
+            ok = kind == "TimeLimitError" and dt < 0.3 + 3.0
+        out.append(ob(f"C01.bounded.reentrant.{name}", ok, "B", f"{kind} after {dt:.2f}s (time_limit={'0' if name == 'zero-limit' else '0.3'})",
+                      witness=None if ok else f"ctx.set('py', <host function using ctx again>); ctx.eval({src!r})", confirmed=None if ok else True, domain=1))
     return out
 
 
